@@ -238,39 +238,39 @@ CHECKS = {
 
 # What the waves of seeded changes added to each check after the text above was written (DESIGN.md section 16).
 ADDENDA = {
-    'C01': "Also: processors that report patched versions whose echo never comes (consistency bookkeeping must not change the schedule); DELETED events followed by further events of the same key (a uid-less object deleted and re-created within its creation second). Objects first seen through the listing (a kind whose name ends in the letters of 'List', with/without uid); resumed watches across a digit rollover of the resource version.",
+    'C01': "Also: processors that report patched versions whose echo never comes (consistency bookkeeping must not change the schedule); DELETED events followed by further events of the same key (a uid-less object deleted and re-created within its creation second). Objects first seen through the listing (a kind whose name ends in the letters of 'List', with/without uid); resumed watches across a digit rollover of the resource version. Events the watcher has TAKEN from the watch client are never optional at a cancellation (observed in the step in which its `async for` receives them); watch lines cut into network reads in other ways than one line per read.",
     'C02': "Also: sub-handlers nested two levels deep, resume cycles superseded by essential changes (a resume handler succeeds once per process), pure resume "
-           "cycles, ReplicaSets owned by Deployments, a resume handler with sub-handlers superseded in mid-cycle, and a final rule that no progress record is left behind for ever. Several foreign writes before one PATCH (a handler on a view older than the operator's own PATCH counts as the carve-out only after the consistency timeout); parents that call kopf.execute() themselves.",
+           "cycles, ReplicaSets owned by Deployments, a resume handler with sub-handlers superseded in mid-cycle, and a final rule that no progress record is left behind for ever. Several foreign writes before one PATCH (a handler on a view older than the operator's own PATCH counts as the carve-out only after the consistency timeout); parents that call kopf.execute() themselves. One foreign write next to a raw-event handler that patches on every event.",
     'C03': "Also: resume handlers (one retrying / two under asap) in every history with a restart, and the idle-worker tie (the last change arrives in the "
-           "very instant the object's worker retires, all step orders); sub-handlers generated per item of a list in the spec while the list shrinks and grows between the steps. Two deletion handlers / immediate retries with a rule that nothing is released before every deletion handler completed; a change taken back between retries (open finding).",
+           "very instant the object's worker retires, all step orders); sub-handlers generated per item of a list in the spec while the list shrinks and grows between the steps. Two deletion handlers / immediate retries with a rule that nothing is released before every deletion handler completed; a change taken back between retries (open finding). Handler ids long enough for two differently named annotations per record; a raw-event handler whose patch changes nothing from the second event on (edits 0-20 s apart, with and without retries).",
     'C04': "Also: stored-last-handled invariants in the write graph, look-alike annotation keys, a list universe for the diff laws, and the same in vivo: "
            "a closed loop (objects with a spec / empty essence, annotations and status storage, number<->boolean edits, field-narrowed handlers) where "
-           "handlers fire exactly once per essential edit and what they are GIVEN (old/new/diff) is exact and free of own writes. Field-restoring configurations (handlers on metadata.annotations / status) over default, status and both orders of multi storages in the own-writes graph and in the loop; another kind's narrowed handlers.",
+           "handlers fire exactly once per essential edit and what they are GIVEN (old/new/diff) is exact and free of own writes. Field-restoring configurations (handlers on metadata.annotations / status) over default, status and both orders of multi storages in the own-writes graph and in the loop; another kind's narrowed handlers. Multi-location storages (both orders) in the closed loop with a handler narrowed to one status field.",
     'C05': "Also: objects found unhandled by the initial listing, resume handlers only at first sight and never in a creation cycle, explicit "
-           "deleted=False, list-tail edits, and a final rule that no essential difference is taken for nothing. Another kind's narrowed handlers in the same operator; ReplicaSets owned by Deployments.",
+           "deleted=False, list-tail edits, and a final rule that no essential difference is taken for nothing. Another kind's narrowed handlers in the same operator; ReplicaSets owned by Deployments. The watch event as it came off the wire vs. the body it is judged by; a kind with a daemon and a raw-event handler whose patch changes nothing, edits / deletion 1-6 s later.",
     'C06': "Also: kopf's finalizer between two foreign ones, histories where nothing happens after a version conflict, a label switched off and on again "
            "around the release (group completing deviation bound 2), sibling daemons of which one exits on its own, backoff >= timeout. A label-filtered daemon that is slow to leave, relabelled before it has left, then deleted.",
     'C07': "Also: daemons/timers spawned in the instant of the matching event while the barrier is up, a raw-event handler that writes through its patch, "
            "and a worker idle timeout shorter than the consistency timeout. Resource versions that gain a digit between the foreign write and the own patch; a raw-event handler whose patch follows foreign status edits.",
     'C08': "Also: the framework's own carry-over (processing.py) in the closed loop with label toggles and a user transformation (patch.fns) that is "
-           "undone later by somebody else, or whose delivering cycle fails as a whole (500) after the conflict; objects without a status stanza. The status subresource as DISCOVERED by the whole operator for kinds whose plurals stand in a prefix relation.",
+           "undone later by somebody else, or whose delivering cycle fails as a whole (500) after the conflict; objects without a status stanza. The status subresource as DISCOVERED by the whole operator for kinds whose plurals stand in a prefix relation. Sibling daemons/timers spawned by one event, each delivering a field and a non-idempotent transformation of its own: nothing delivered again, nothing duplicated, everything delivered.",
     'C09': "Also: two spawned handlers per object living and dying separately (asked to stop only with a reason), bounded exit of the operator, "
-           "backoff >= timeout; synchronous (threaded) daemons told to stop more than once. A second object-level reason to stop inside the backoff of the first.",
+           "backoff >= timeout; synchronous (threaded) daemons told to stop more than once. A second object-level reason to stop inside the backoff of the first. The operator pauses / exits while an event of one of two objects is being processed (every step boundary of that instant); 'never cancelled' judged under every non-time deviation.",
     'C10': "Also: label-filter toggles during a slow run (no self-overlap), zero backoff. Schedules at the scale of days.",
     'C11': "Also: the limits of a parent whose sub-handler keeps failing, background handlers with a running sibling and later events, zero backoff, "
-           "downtimes that push the next attempt behind the timeout (fractional, seconds, more than a day), the same on a ReplicaSet owned by a Deployment. A deletion handler taking over from a handler that waits for its retry.",
-    'C12': "Also: attempts that take time before they fail (the pause counts from the failure); a login handler that re-offers credentials invalidated earlier. Nothing is sent on a session after its 401 came back (issue times).",
+           "downtimes that push the next attempt behind the timeout (fractional, seconds, more than a day), the same on a ReplicaSet owned by a Deployment. A deletion handler taking over from a handler that waits for its retry. A timer with idle= whose retries are postponed by essential edits (per-cycle limits).",
+    'C12': "Also: attempts that take time before they fail (the pause counts from the failure); a login handler that re-offers credentials invalidated earlier. Nothing is sent on a session after its 401 came back (issue times). error_delays as a re-iterable that is no Collection, and as a list.",
     'C13': "Also: pauses only for live blockers and resumes only without them (every opening/closing of a watch is judged), operators with non-default "
            "lifetimes against records that state none, a failing keep-alive around a slow graceful exit (the record stays withdrawn), lifetimes of a day and more. A keep-alive renewal failing for good (the operator has to go down); foreign records with UTC offsets.",
-    'C14': "Also: permanently failing handlers, explicit deleted=False, lingering deletions, slow resume handlers with re-listings during their run. Objects with an empty essence.",
+    'C14': "Also: permanently failing handlers, explicit deleted=False, lingering deletions, slow resume handlers with re-listings during their run. Objects with an empty essence. One PATCH of the new process rejected by the server (every one in turn): a rejected closing write does not repeat the resume handlers.",
     'C15': "Also: two-key label/annotation criteria (every ordered pair of criterion kinds x key states x handler family, selection and prematch) and one "
-           "function stacked twice under one id with different criteria. Field criteria on a status field through falsy values in the closed loop; 70 resource-selector spellings against 7 resources.",
-    'C16': "Also: empty and odd essences, look-alike user annotations, and after every operation: the essence contains no own record and all user data.",
-    'C17': "Also: empty-mapping results, a handled kind without an index next to an indexed one (both visiting orders), same-named objects of two kinds. Equal values from different objects; the index under test without a sibling index.",
+           "function stacked twice under one id with different criteria. Field criteria on a status field through falsy values in the closed loop; 70 resource-selector spellings against 7 resources. Objects that used to match and do not any more keep no finalizer (with / without daemons, left alone / deleted / restart).",
+    'C16': "Also: empty and odd essences, look-alike user annotations, and after every operation: the essence contains no own record and all user data. One long-lived storage instance serving objects of both kinds (plain, ReplicaSet of a Deployment) in every order vs. a fresh instance per operation.",
+    'C17': "Also: empty-mapping results, a handled kind without an index next to an indexed one (both visiting orders), same-named objects of two kinds. Equal values from different objects; the index under test without a sibling index. Bursts: events of one object queue up behind a slow raw-event handler; every one of them is indexed before its handlers look at the index.",
     'C18': "Also: number<->boolean swaps, other spellings of the DELETE opt-in, strict standard-alphabet base64 decoding of the returned patch, one transformation function requested twice. Field criteria of admission handlers (the reviewed object decides); mutating handlers on DELETE reviews.",
     'C19': "Also: resource versions that gain a digit, namespaced mandatory peering against namespace removal, a cluster-scoped kind, and group (c): the "
            "whole operator (namespaces=['n*'], by-name and by-category handlers) while CRDs, versions, categories and namespaces come and go in the fake "
-           "cluster - through the real observation and orchestration code. Unknown ERROR events in the stream of any served pair (peering included) must surface; list/watch requests throttled (429) beyond the client's retries; a watch that returns silently.",
+           "cluster - through the real observation and orchestration code. Unknown ERROR events in the stream of any served pair (peering included) must surface; list/watch requests throttled (429) beyond the client's retries; a watch that returns silently. Watch lines cut into network reads in other ways than one line per read (newline alone / leading, mid-line cuts, 3-byte reads).",
     'C20': "Also: more objects than workers at the stop (nothing is worked off afterwards), synchronous (threaded) startup handlers with the stop before, "
            "during and after their run (threads emulated as uncancellable futures with a declared virtual duration), daemons without a cancellation timeout under failures of essential tasks. The daemon's object deleted shortly before the stop / cancellation / failure.",
 }
